@@ -280,13 +280,35 @@ fn run(ctx: &Ctx, src: &mut Src) -> WorldResult {
         pool.push(img);
     }
     src.log(|| format!("bg={:?} pool={:?}", bg.map(|c| c.to_rgba()), pool.iter().map(|p| format!("{}:{}x{}", p.class, p.image.height(), p.image.width())).collect::<Vec<_>>()));
+    // one more pool entry is a frame buffer the application reuses: the same allocation is
+    // overwritten in place between draws (animation), so identity of the storage says nothing
+    // about the content
+    let fb_size = Size::new(6 + src.draw(13) as usize, 1 + src.draw(12) as usize);
+    let mut fb_data: std::sync::Arc<[RGBA]> = (0..fb_size.height * fb_size.width).map(|i| RGBA::new((i * 7) as u8, 10, 200, 255)).collect::<Vec<_>>().into();
+    let mut fb_version = 0u32;
     let draws = 2 + src.draw(if ctx.tier == Tier::Quick { 6 } else { 11 }) as usize;
     // bytes emitted by the first successful draw of each image content
     let mut first: BTreeMap<u64, (usize, Vec<u8>)> = BTreeMap::new();
     let mut emitted_total = 0usize;
     for step in 0..draws {
-        let idx = src.draw(pool.len() as u32) as usize;
-        let item = &pool[idx];
+        let idx = src.draw(pool.len() as u32 + 1) as usize;
+        let fb_item;
+        let item = if idx == pool.len() {
+            if src.chance(1, 2) {
+                // overwrite the frame buffer in place (no image refers to it at this point)
+                fb_version += 1;
+                if let Some(data) = std::sync::Arc::get_mut(&mut fb_data) {
+                    for (i, px) in data.iter_mut().enumerate() {
+                        *px = RGBA::new((i as u32 * 7 + fb_version * 40) as u8, (fb_version * 90) as u8, 200, 255);
+                    }
+                    src.probe("frame-buffer-overwritten-in-place");
+                }
+            }
+            fb_item = PoolImage { image: Image::from_parts(fb_data.clone(), Shape::from(fb_size)), class: "reused-frame-buffer", few_colours: true };
+            &fb_item
+        } else {
+            &pool[idx]
+        };
         let fail_at = if src.chance(1, 8) { Some(src.draw(3000) as usize) } else { None };
         let mut sink = FailingSink { buf: Vec::new(), fail_at, failed: false };
         src.sig(0x600 + idx as u64 * 4 + fail_at.is_some() as u64);
